@@ -76,6 +76,7 @@ def introspect():
 
 
 def resolve(name):
+    name = name.split("#")[0]          # "Module.func#variant": a second base tuple of the same callable
     a, b = name.split(".")
     if a in ("base", "Coordinates"):
         return getattr(mod(a), b), False
@@ -206,7 +207,7 @@ def _do_call(name, spec, fn, is_method, args, pool, recv_obj, kwargs):
     try:
         if is_method:
             recv = recv_obj if recv_obj is not None else mk(spec["recv"], None if spec["mutator"] else pool)
-            r = getattr(recv, name.split(".")[1])(*args, **(kwargs or spec["kwargs"]))
+            r = getattr(recv, name.split("#")[0].split(".")[1])(*args, **(kwargs or spec["kwargs"]))
         else:
             r = fn(*args, **(kwargs or spec["kwargs"]))
         return "ok", r, recv, args
@@ -267,14 +268,14 @@ def base_tags(spec):
 def check_catalogue(_case):
     out = []
     S = SP.specs()
-    have = set(S) | set(SP.NOT_CALLED)
+    have = set(n.split("#")[0] for n in S) | set(SP.NOT_CALLED)
     found = introspect()
     for n in sorted(set(found) - have):
         out.append("public callable %s is not in the C20 catalogue" % n)
     for n in sorted(have - set(found)):
         out.append("catalogued callable %s no longer exists" % n)
     for n, spec in S.items():
-        if n not in found:
+        if n.split("#")[0] not in found:
             continue
         fn, is_method = resolve(n)
         try:
@@ -566,8 +567,15 @@ def check_tuple(name, choice):
     tags = [c[1] for c in choice]
     ill = [i for i, c in enumerate(choice) if c[0] == "ill"]
     pool = {}
+    for t in tags:
+        mk(t, pool)
+    p0 = pool_state(pool)
     kind, r, recv, args = do_call(name, spec, tags, pool)
     shown = "%s(%s)" % (name, ", ".join(repr(t) for t in tags))
+    p1 = pool_state(pool)
+    if any(p0[k] != p1.get(k) for k in p0):
+        return [("arguments_changed", "%s changed its argument objects %s"
+                 % (shown, [k for k in p0 if p0[k] != p1.get(k)][:3]))]
     if ill:
         if kind == "ok":
             return [("ill_accepted", "%s with an ill-typed argument at position %r returned %r"
@@ -623,6 +631,7 @@ def run_totality(block, ctx):
         if k0 == "ok":
             _BASE_TYPES[name] = _shape(r0)
         n = 0
+        g0 = global_state()
         for tup, pos in within_deviations(base, [a[1:] for a in al], dmax):
             # at most one ill-typed value per tuple (an ill-typed tuple is judged by its ill value)
             if sum(1 for c in tup if c[0] == "ill") > 1:
@@ -646,6 +655,10 @@ def run_totality(block, ctx):
                 ctx.viol({"callable": name, "arity": kind}, "%s with a%s argument raised %s: %s"
                          % (name, "n extra" if kind == "extra" else " missing", type(r).__name__, r),
                          site="arity_wrong_exception")
+        dg = diff_keys(g0, global_state())
+        if dg:
+            ctx.viol({"callable": name, "deviations": dmax}, "calls of %s within %d deviation(s) of its base tuple "
+                     "changed module-level state: %s" % (name, dmax, dg[:5]), site="globals_changed")
         ctx.transitions += n
         ctx.states += 1
         ctx.outcome((name, n))
@@ -757,6 +770,12 @@ def probes():
     P.append(("out", "ctor.Epoch", [1e17], None))
     P.append(("out", "ctor.Epoch", [-5.0], None))
     P.append(("out", "ctor.Epoch", [2000, 2, 30], None))
+    # a valid leap-February date first, then invalid 29 February dates (history of constructor calls)
+    P.append(("in", "ctor.Epoch", [2020, 2, 10.0], None))
+    P.append(("in", "ctor.Epoch", [2024, "Feb", 29.5], None))
+    P.append(("out", "ctor.Epoch", [2019, 2, 29], None))
+    P.append(("out", "ctor.Epoch", [1900, 2, 29.5], None))
+    P.append(("out", "ctor.Epoch", [1582, 10, 32], None))
     P.append(("out", "ctor.Epoch", [2000, 13, 1], None))
     P.append(("out", "ctor.Epoch", [-4713, 1, 1], None))
     return P + _collinear()
@@ -807,6 +826,7 @@ def check_probe(case):
 
 
 def run_probes(block, ctx):
+    g0 = global_state()
     for case in block:
         ctx.evals += 1
         ctx.nt_count += 1
@@ -816,6 +836,10 @@ def run_probes(block, ctx):
             ctx.viol({"kind": case["kind"], "callable": case["callable"], "args": [repr(a) for a in case["args"]]},
                      msg, site="probe_" + case["kind"])
         ctx.outcome(case["callable"])
+    dg = diff_keys(g0, global_state())
+    if dg:
+        ctx.viol({"probes": [c["callable"] for c in block]}, "boundary probes changed module-level state: %s" % dg[:5],
+                 site="globals_changed")
     ctx.traces += len(block)
     ctx.sample({"callable": block[0]["callable"], "args": [repr(a) for a in block[0]["args"]]})
 
@@ -845,5 +869,5 @@ def clauses(tier):
         Clause("pair_histories", order, run_pairs, replay_pair, floor=1000, shape="H"),
         Clause("copy_independence", chunks(copy_cases(), 8), run_copy, check_copy, floor=50, shape="H"),
         Clause("totality", tot_blocks, run_totality, replay_totality, floor=500, shape="H"),
-        Clause("boundary_probes", chunks(probe_cases(), 8), run_probes, _replay_probe, floor=50, shape="H"),
+        Clause("boundary_probes", chunks(probe_cases(), 4), run_probes, _replay_probe, floor=50, shape="H"),
     ]
